@@ -29,6 +29,15 @@ impl Driven for D {
          _ => panic!("verif harness: unknown relation {}", rel),
       }
    }
+   fn clear(&mut self, rel: &str) {
+      match rel {
+         "w" => { self.0.w = Default::default(); },
+         "best" => { self.0.best = Default::default(); },
+         "glob" => { self.0.glob = Default::default(); },
+         "win" => { self.0.win = Default::default(); },
+         _ => panic!("verif harness: unknown relation {}", rel),
+      }
+   }
    fn run(&mut self) { self.0.run(); }
    fn dump(&self) -> Value {
       let mut m: Vec<(String, Value)> = vec![];
